@@ -25,6 +25,7 @@ type Env struct {
 	rng    *iterKey
 	oldTop T // allocation frontier of the old state (for fresh())
 	at     string
+	inAxiom bool // evaluating an `axiom` clause: quantifiers range over all mathematical values
 	loopPre *State // state at loop entry (before havoc), for loopold()/loopfresh()
 	iterHead *State // state at the head of the current loop iteration (call-site assertions)
 	guard    *[]T   // when set: collects "dereferenced object is not nil" conditions (designators)
@@ -440,7 +441,17 @@ func (e *Env) call(x *ast.CallExpr) Val {
 				bv := "q." + smtSym(v) + "." + strconv.Itoa(e.c.nextID())
 				body := e.bind(v, Val{Typ: t, L: []T{bv}}).evalBool(x.Args[1])
 				fact := e.c.leafFact(ls[0], bv, "")
+				if ls[0].Kind == lkStr || e.inAxiom {
+					// the length range of every string is a global axiom; an `axiom`
+					// clause is stated for all mathematical values (ghost counters are
+					// unbounded integers)
+					fact = "true"
+				}
 				if id.Name == "all" {
+					// nested universal quantifiers become one (better triggers)
+					if fact == "true" && strings.HasPrefix(body, "(forall ((") {
+						return boolVal(fmt.Sprintf("(forall ((%s %s) %s", bv, ls[0].Sort, body[len("(forall ("):]))
+					}
 					return boolVal(fmt.Sprintf("(forall ((%s %s)) %s)", bv, ls[0].Sort, imp(fact, body)))
 				}
 				return boolVal(fmt.Sprintf("(exists ((%s %s)) %s)", bv, ls[0].Sort, and(fact, body)))
@@ -1336,7 +1347,7 @@ func (e *Env) ufun(u *UFun, args []ast.Expr) Val {
 			if ax.Pkg != "stubs" && ax.Pkg != own && ax.Pkg != u.Pkg {
 				continue
 			}
-			ae := &Env{c: c, vars: map[string]Val{}, st: e.st, at: fmt.Sprintf("%s:%d", ax.File, ax.Line)}
+			ae := &Env{c: c, vars: map[string]Val{}, st: e.st, at: fmt.Sprintf("%s:%d", ax.File, ax.Line), inAxiom: true}
 			if p := c.P.Pkgs[ax.Pkg]; p != nil {
 				ae.pkg = p.Pkg
 			}
